@@ -145,6 +145,26 @@ func scenarios(tier string, seed int64) []scenario {
 		}
 		out = append(out, scenario{Svc: "ftp", Attempts: as})
 	}
+	// many failed attempts on one ssh connection before the configured pair: an attempt's outcome does not
+	// depend on how many failed before it
+	nl := 12
+	if tier == "thorough" {
+		nl = 120
+	}
+	rl := core.NewRng(seed, "C12/long", 0)
+	for i := 0; i < nl; i++ {
+		good := pairs[rl.Intn(3*4)]
+		var as []attempt
+		for j := rl.Range(5, 12); j > 0; j-- {
+			w := attempt{User: good.User, Pass: passwords[rl.Intn(len(passwords))]}
+			if w.Pass == good.Pass {
+				w.Pass = "wrong-" + w.Pass
+			}
+			as = append(as, w)
+		}
+		as = append(as, good)
+		out = append(out, scenario{Svc: "ssh-simulator", Creds: []string{credOf(good)}, Attempts: as})
+	}
 	// bystander scenarios (appended last so that the indexes of the others do not move)
 	nb := 60
 	if tier == "thorough" {
